@@ -132,6 +132,15 @@ def errname(e):
     return type(e).__name__
 
 
+def trappable(e):
+    """errors of the code under test (coba.exceptions.CobaExit derives from BaseException); never the
+    harness's own time-out or an interrupt"""
+    n = type(e).__name__
+    if n == "CobaExit":
+        return True
+    return isinstance(e, Exception) and n != "CaseTimeout"
+
+
 # ----------------------------------------------------------------------------------------------
 # building the real pipeline from a case
 class CountingSeq(list):
@@ -437,7 +446,9 @@ def run_history(case, tmp, intern=None):
                 outs.append({"derived": op})
             else:
                 raise ValueError("bad op %r" % op)
-        except Exception as e:     # noqa
+        except BaseException as e:     # noqa
+            if not trappable(e):
+                raise
             outs.append({"err": errname(e), "msg": str(e)[:200], "op": op, "tb": traceback.format_exc()[-600:]})
             if op in DERIVE:
                 pool.append(None)
@@ -486,6 +497,8 @@ def g_ctx(rng, kind, width):
         return rng.choice(["a", "b", "c"])
     if kind == "dense":
         return [g_num(rng) for _ in range(width)]
+    if kind == "densenone":
+        return [(None if rng.chance(0.3) else g_num(rng)) for _ in range(max(2, width))]
     if kind == "densecat":
         return [g_num(rng) for _ in range(max(1, width - 1))] + [rng.choice(["u", "v", "w"])]
     if kind == "tuple":
@@ -498,7 +511,7 @@ def g_ctx(rng, kind, width):
     raise ValueError(kind)
 
 
-CTX_KINDS = ["none", "value", "str", "dense", "dense", "densecat", "tuple", "sparse", "sparse", "nested"]
+CTX_KINDS = ["none", "value", "str", "dense", "dense", "densecat", "densenone", "tuple", "sparse", "sparse", "nested"]
 
 
 def g_lambda(rng, n):
@@ -562,7 +575,7 @@ def g_sup(rng, n):
     width = rng.randint(1, 3)
     lt = rng.choice(["c", "c", "c", "r", "m", None, None])
     if r < 30:
-        ck = rng.choice(["dense", "dense", "sparse", "value", "densecat"])
+        ck = rng.choice(["dense", "dense", "sparse", "value", "densecat", "densenone"])
         X = [g_ctx(rng, ck, width) for _ in range(n)]
         Y = g_labels(rng, n, lt or rng.choice(["c", "r"]))
         shape = {"ctx": ck, "act": "empty" if (lt == "r" or (lt is None and Y and not isinstance(Y[0], str))) else "str", "width": width, "nact": 3,
@@ -798,8 +811,9 @@ def g_step(rng, sh):
         shift = rng.choice(["min", "mean", "med", 0, 1]) if sh["ctx"] != "sparse" else 0
         return {"m": m, "a": [shift, rng.choice(["minmax", "std", "iqr", "maxabs", 2]), "context", rng.choice([None, None, 1, 2, 5, 30])]}, sh
     if m == "impute":
-        if sh["ctx"] not in ("dense", "tuple", "value", "sparse", "densecat"):
+        if sh["ctx"] not in ("dense", "tuple", "value", "sparse", "densecat", "densenone"):
             return None
+        sh["ctx"] = "dense" if sh["ctx"] == "densenone" else sh["ctx"]
         return {"m": m, "a": [rng.choice(["mean", "median", "mode"]), rng.chance(0.5), rng.choice([None, None, 1, 3, 30])]}, sh
     if m == "where":
         kw = {}
@@ -906,20 +920,26 @@ def g_chain(rng, sh):
     # bias: the stateful mechanisms must be reached often
     forced = []
     r = rng.below(100)
-    if r < 22:
+    if r < 20:
         forced = ["logged", "shuffle"]
     elif r < 30:
-        forced = ["cache"]
-    elif r < 38:
+        forced = ["cache", None]            # a cache followed by any other filter (copies handed out)
+    elif r < 35:
+        forced = ["materialize", None]
+    elif r < 42:
         forced = ["sparse", "dense"]
+    elif r < 47 or (sh["ctx"] == "densenone" and r < 80):
+        forced = ["impute"]
+    elif r < 52:
+        forced = ["cache", "cycle"]
     while len(chain) < L + len(forced) and tries < 40:
         tries += 1
         if forced:
             name = forced[0]
             res = None
-            for _ in range(30):
+            for _ in range(40):
                 res = g_step(rng, sh)
-                if res and res[0].get("m") == name:
+                if res and (name is None or res[0].get("m") == name) and "unknown" not in res[0]:
                     break
                 res = None
             forced.pop(0)
@@ -1003,7 +1023,8 @@ class Patches:
         if "F3" in self.ids:      # pipes.Cache: a half-filled cache pickles as an unread one
             def getstate(self_):
                 st = dict(self_.__dict__)
-                if st.get("_iter") is not None:
+                it = st.get("_iter")
+                if it is not None:
                     st["_iter"] = None
                     st["_cache"] = None
                 return st
@@ -1094,7 +1115,9 @@ def monitor(case, tmp):
     try:
         ref, refp = reference(case, tmp)
         srcpost = REF_EXTRA.get("src_params_after_read")
-    except Exception as e:  # the pipeline is not readable at all: outside the quantifier
+    except BaseException as e:  # the pipeline is not readable at all: outside the quantifier
+        if not trappable(e):
+            raise
         return None, ["ref-raises:" + errname(e)], {"ref_error": "%s: %s" % (errname(e), str(e)[:200])}
     outs, before, after = run_history(case, tmp)
     raw = []
@@ -1134,9 +1157,38 @@ def derive_always_fails(case, i, err, tmp):
     # pool indices are unchanged: only derive steps create objects
     try:
         outs, _, _ = run_history(dict(case, hist=hist), tmp)
-    except Exception:
+    except BaseException as e:
+        if not trappable(e):
+            raise
         return False
     return bool(outs) and outs[-1].get("err") == err
+
+
+def abandoned_before_pickle(case):
+    """is there a pickle step on an object whose latest read (on it or on an object it was derived from) was abandoned?"""
+    parent = {0: None}
+    n = 1
+    last = {}            # object -> kind of the latest read
+    for h in case["hist"]:
+        j = h.get("on", 0)
+        if h["op"] == "partial" and h["k"] > 0:
+            last[j] = "partial"
+        elif h["op"] == "full":
+            last[j] = "full"
+        elif h["op"] in DERIVE:
+            if h["op"] == "pickle":
+                a = j
+                while a is not None:
+                    if last.get(a) == "partial":
+                        return True
+                    if last.get(a) == "full":
+                        break
+                    a = parent.get(a)
+            if h["op"] in ("materialize", "save"):
+                last[j] = "full"
+            parent[n] = j
+            n += 1
+    return False
 
 
 def diffkind(got, ref):
@@ -1287,9 +1339,17 @@ def describe(case, tmp, nd, srcpost=None):
         out = list(f.filter(cur))
         oids = I.items([cint(x) for x in out])
         dem = "lazy" if name in LAZY else "eager" if name in EAGER else "calltime" if name in CALLTIME else "opaque"
+        dn = 0
+        if name == "Take":
+            cnt = f.params.get("take")
+            strict = bool(getattr(f, "_strict", False))
+            dem, dn = ("lazy", 0) if cnt is None else (("prefixcall" if strict else "prefix"), int(cnt))
+        elif name == "Slice":
+            stop = f.params.get("slice_stop")
+            dem, dn = ("lazy", 0) if stop is None else ("prefix", int(stop))
         if dem == "opaque" and seen_stateful:
             asis_ok = False
-        node = {"k": "pure", "table": [[ids, oids]], "dem": dem if dem != "opaque" else "lazy", "par": I.ptoks(i, dict(f.params)), "cls": name}
+        node = {"k": "pure", "table": [[ids, oids]], "dem": dem if dem != "opaque" else "lazy", "n": dn, "par": I.ptoks(i, dict(f.params)), "cls": name}
         if name in ELEMENTWISE:
             em = elem_map(ids, oids)
             if em:
@@ -1363,13 +1423,14 @@ def compare_model(case, outs, model, I):
 class C04(Property):
     id = "C04"
     prop_modules = ["CobaVerif.Props.C04"]
-    quick_n = 700
-    thorough_n = 12000
+    quick_n = 1000
+    thorough_n = 25000
     search_n = 1500
     case_timeout = 60
     workers = 8
     rule = ("environment = public constructor (5 synthetic, lambda, supervised from X/Y, row sources, csv/arff/libsvm/manik files or line sources, "
-            "result object/file) + 0-8 Environments shortcut calls (enumerated by introspection, legal arguments) ; history of 3-8 "
+            "result object/file) + 0-8 Environments shortcut calls (enumerated by introspection, legal arguments; the stateful mechanisms - logged Shuffle, "
+            "Cache followed by another filter, materialize, sparse->dense lookup, impute on missing values - are forced into ~45% of the chains); history of 3-8 "
             "full / partial(k) / params / materialize / cache / chunk / pickle / save steps on the pool of objects derived from it; "
             "non-trivial = the fresh read is non-empty, the history has >= 2 observations (full reads / params after a read) and at least one "
             "state-changing step (partial read or derive step) before the last observation; distinct by canonical JSON of the case")
@@ -1394,6 +1455,35 @@ class C04(Property):
     def search(self, rng, tier):
         return self.generate(rng, tier)
 
+    def exhaustive(self, tier):
+        """small-scope sweep (thorough tier): every history of length 3 over 9 step kinds on 4 fixed pipelines,
+        each followed by a full read and a params look-up on the newest object"""
+        lam = {"kind": "lambda", "n": 30, "ctxs": [[1, 2], [3, 4], [0.5, 7]], "acts": [["x", "y", "z"]], "rwds": [[1, 0, 0.5], [0, 1, 0.25]], "seed": 3}
+        lin = {"kind": "linear", "n": 6, "n_actions": 3, "n_ctx": 2, "n_act": 0, "n_coeff": 2, "rf": ["a", "xa"], "seed": 3}
+        rows = {"kind": "sup_rows", "via": "list", "rows": [[1, 2, "a"], [3, 4, "b"], [5, 6, "a"], [7, 8, "b"]], "label_col": 2, "label_type": "c", "take": None}
+        pipes = [(lam, [{"m": "cache"}]), (lin, [{"m": "logged", "learner": {"kind": "random", "seed": 1}, "a": [1.23]}, {"m": "shuffle", "a": [4]}]),
+                 (rows, [{"m": "scale", "a": ["min", "minmax", "context", None]}]), (lam, [{"m": "sparse", "a": [True, False]}, {"m": "dense", "a": [6, "lookup"]}, {"m": "chunk", "a": [True]}])]
+        kinds = ["full", "p1", "p26", "params", "cache", "chunk", "pickle", "materialize", "save"]
+        out = []
+        for src, chain in pipes:
+            for a in kinds:
+                for b in kinds:
+                    for c in kinds:
+                        hist, n = [], 1
+                        for kd in (a, b, c):
+                            if kd == "p1":
+                                hist.append({"op": "partial", "on": n - 1, "k": 1})
+                            elif kd == "p26":
+                                hist.append({"op": "partial", "on": n - 1, "k": 26})
+                            elif kd in ("full", "params"):
+                                hist.append({"op": kd, "on": n - 1})
+                            else:
+                                hist.append({"op": kd, "on": n - 1})
+                                n += 1
+                        hist += [{"op": "full", "on": n - 1}, {"op": "params", "on": n - 1}, {"op": "full", "on": n - 1}]
+                        out.append({"src": src, "chain": chain, "hist": hist})
+        return out
+
     def corpus(self):
         cs = [{"witness": "shuffle_abandon_counterexample"}]
         lin = {"kind": "linear", "n": 5, "n_actions": 3, "n_ctx": 2, "n_act": 0, "n_coeff": 2, "rf": ["a", "xa"], "seed": 3}
@@ -1410,7 +1500,8 @@ class C04(Property):
         for chain in ([logged, {"m": "shuffle", "a": [4]}], [logged, {"m": "shuffle", "a": [4]}, {"m": "take", "a": [3, False]}],
                       [logged, {"m": "shuffle", "a": [4]}, {"m": "cache"}], [logged, {"m": "shuffle", "a": [4]}, {"m": "sort", "a": [0]}],
                       [{"m": "shuffle", "a": [4]}]):
-            for hist in ([full, part(2), full, par], [full, full, par], [part(0), part(1), full], [full, {"op": "materialize", "on": 0}, {"op": "full", "on": 1}, full]):
+            for hist in ([full, part(2), full, par], [full, full, par], [part(0), part(1), full], [full, {"op": "materialize", "on": 0}, {"op": "full", "on": 1}, full],
+                         [part(2), {"op": "materialize", "on": 0}, {"op": "full", "on": 1}, full]):
                 cs.append({"src": lin, "chain": chain, "hist": hist})
         # Cache: slice boundaries, saved iterator continuing across reads, nested caches, pickling a half-filled cache
         for n in (24, 25, 26, 50, 51):
@@ -1427,6 +1518,17 @@ class C04(Property):
             cs.append({"src": src, "chain": [], "hist": [par, full, par, full, {"op": "save", "on": 0}, {"op": "params", "on": 1}, {"op": "full", "on": 1}]})
             cs.append({"src": src, "chain": [{"m": "cache"}], "hist": [full, {"op": "pickle", "on": 0}, {"op": "full", "on": 1}, {"op": "params", "on": 1}]})
             cs.append({"src": src, "chain": [{"m": "scale", "a": ["min", "minmax", "context", None]}], "hist": [part(1), full, full, par]})
+        # copies handed out by the cache; missing values; stateful rewards
+        onehot = dict(lam, n=6, acts=[[{"t": [1, 0, 0]}, {"t": [0, 1, 0]}, {"t": [0, 0, 1]}]])
+        for chain in ([{"m": "cache"}, {"m": "cycle", "a": [1]}], [{"m": "materialize"}, {"m": "cycle", "a": [0]}], [{"m": "cache"}, {"m": "binary"}],
+                      [{"m": "cache"}, {"m": "scale", "a": ["min", "minmax", "context", None]}], [{"m": "cache"}, {"m": "noise", "k": {"reward": {"t": ["i", 0, 1]}, "seed": 2}}],
+                      [{"m": "materialize"}, {"m": "grounded", "a": [3, 2, 4, 2, 1]}], [{"m": "grounded", "a": [3, 2, 4, 2, 1]}, {"m": "cache"}]):
+            cs.append({"src": onehot, "chain": chain, "hist": [full, part(2), full, full, par]})
+        none = dict(lam, n=6, ctxs=[[1, None], [None, 4], [0.5, 7], [2, 2]])
+        for stat in ("mean", "median", "mode"):
+            cs.append({"src": none, "chain": [{"m": "impute", "a": [stat, True, None]}], "hist": [full, part(1), full, par]})
+            cs.append({"src": {"kind": "sup_xy", "X": [[1, None], [None, 4], [0.5, 7], [2, 2]], "Y": ["a", "b", "a", "b"], "label_type": "c"},
+                       "chain": [{"m": "impute", "a": [stat, False, 2]}], "hist": [full, full, par]})
         # empty environments (EmptyCheck), densify lookup
         cs.append({"src": dict(lin, n=0), "chain": [], "hist": [full, full, par, {"op": "materialize", "on": 0}, {"op": "full", "on": 1}]})
         cs.append({"src": lin, "chain": [{"m": "take", "a": [0, False]}], "hist": [full, part(1), full]})
@@ -1494,7 +1596,9 @@ class C04(Property):
         try:
             quiet()
             req, I, staged, asis_ok = describe(case, tmp, len(case["hist"]) + 3, info.get("srcpost"))
-        except Exception as e:
+        except BaseException as e:
+            if not trappable(e):
+                raise
             tags.append("A:not-staged:" + errname(e))
             return None
         if staged != I.items(info["ref"]):
@@ -1526,6 +1630,11 @@ class C04(Property):
             if not adiffs:
                 tags.append("A:asis-variant")
                 return {"variant": "asis", "outs": amodel[:12]}
+        if not asis_ok:
+            # an as-is stateful stage (logged Shuffle) is followed by a filter whose laziness is not declared:
+            # the as-is model cannot say how far that filter drives it (e.g. Slice never exhausts it)
+            tags.append("A:asis-laziness-undeclared")
+            return {"variant": "none", "outs": model[:12]}
         known = open_known_sigs()
         if fails and all(f["kind"] == "B" and f["sig"] in known for f in fails):
             tags.append("A:skipped-known-finding")
@@ -1561,7 +1670,9 @@ class C04(Property):
                         r2, _, _ = monitor(case, tmp)
                     if r2 is not None and not r2:
                         need = trial
-        except Exception:
+        except BaseException as e:
+            if not trappable(e):
+                raise
             need = None
         what = "; ".join(r[2] for r in raw[:3])
         if need:
